@@ -1305,3 +1305,18 @@ def index_twice_programs():
     moving = [Let("n", Num(-1)), Fn("i", [], Block([ExprSt(Assign("n", Bin("+", Var("n"), Num(1)))), Return(Var("n"))]))]
     out.append(Module([Let("l", List([Num(1), Num(2)]))] + moving + [ExprSt(IndexOp(Var("l"), Call(Var("i"), []), "+=", Num(5))), Print(Var("l"))]))
     return out
+
+
+# ======================================================================================================
+# sources of every family, as plain text: a corpus of compiler input for the checks that judge compiled code
+# (C06 bytecode verifier, C12 optimiser equivalence, C15 mutations)
+def family_sources(rnd, n):
+    import lang
+    fams = [lambda: program_c01(rnd)[0], lambda: program_c02(rnd), lambda: program_c03(rnd), lambda: program_c04(rnd),
+            lambda: program_c11(rnd), lambda: program_c18(rnd), lambda: program_c10(rnd), lambda: program_c14_keys(rnd)]
+    out = []
+    for i in range(n):
+        ast = fams[i % len(fams)]()
+        layout = ("canon", "min", "pad")[i % 3]
+        out.append((f"gen:{i}", lang.to_source(ast, layout)[0]))
+    return out
